@@ -55,6 +55,9 @@ def scenario(rng, i):
         node = gen._node(tree, f)
         if node["f"] == "":
             node["f"] = gen.gen_content(rng, distinct) or "aa55"
+    if i % 3 == 2:
+        # ... except that ONE file may be empty (it is still different from all others)
+        gen._node(tree, rng.choice(gen.all_files(tree)))["f"] = ""
     cur = copy.deepcopy(tree)
     steps = [{"op": "create", "fmts": gen.gen_fmts(rng)}]
     rounds = []
